@@ -324,6 +324,58 @@ func checkC10(c *Check) {
 		ok, why := jsonRoundTrippable(fv.Type(), map[types.Type]bool{})
 		c.Hold("R2", key, fv.Pos(), ok, "field type does not round-trip through JSON: "+why)
 	}
+	// the field-by-field judgement above describes encoding/json's default treatment of the struct; a hand-written
+	// marshaller on a record type replaces it and must itself carry every needed field, in both directions
+	for _, rt := range []struct {
+		t  types.Type
+		tn string
+	}{{qmeta, "QueueMetadata"}, {msgMeta, "MsgMetadata"}} {
+		if rt.t == nil {
+			continue
+		}
+		var wanted []string
+		for _, nf := range need {
+			if nf.tn == rt.tn {
+				wanted = append(wanted, nf.field)
+			}
+		}
+		for _, mname := range []string{"MarshalJSON", "UnmarshalJSON", "MarshalText", "UnmarshalText"} {
+			var m *types.Func
+			for _, t := range []types.Type{rt.t, types.NewPointer(rt.t)} {
+				ms := types.NewMethodSet(t)
+				for i := 0; i < ms.Len(); i++ {
+					if f, ok := ms.At(i).Obj().(*types.Func); ok && f.Name() == mname {
+						m = f
+					}
+				}
+			}
+			if m == nil {
+				continue
+			}
+			key := rt.tn + "." + mname
+			d := p.DeclOf(m)
+			if mname != "MarshalJSON" || d == nil || d.Decl.Body == nil || d.Decl.Recv == nil || len(d.Decl.Recv.List) != 1 || len(d.Decl.Recv.List[0].Names) != 1 {
+				c.Fail("R2", key, m.Pos(), "undecided: the record type has a hand-written "+mname+"; which envelope fields survive a restart is no longer decided by the struct definition")
+				continue
+			}
+			c.SawFunc(d.Name())
+			recv := d.Info().Defs[d.Decl.Recv.List[0].Names[0]]
+			read := map[string]bool{}
+			ast.Inspect(d.Decl.Body, func(x ast.Node) bool {
+				if sel, ok := x.(*ast.SelectorExpr); ok && objOf(d.Info(), sel.X) == recv {
+					read[sel.Sel.Name] = true
+				}
+				return true
+			})
+			var missing []string
+			for _, f := range wanted {
+				if !read[f] {
+					missing = append(missing, f)
+				}
+			}
+			c.Hold("R2", key, m.Pos(), len(missing) == 0, "the hand-written "+mname+" of "+rt.tn+" does not write "+strings.Join(missing, ", ")+": what the client asked for at MAIL/DATA is in memory for the first attempt but not in the spool – every retry and every attempt after a restart runs without it")
+		}
+	}
 	// SMTPOpts must carry UTF8 and RequireTLS
 	if msgMeta != nil {
 		st := msgMeta.Underlying().(*types.Struct)
